@@ -916,10 +916,24 @@ func (br *bodyRun) setEdge(b *ssa.BasicBlock, slot int, st *State, cond string) 
 			}
 			ov[phi] = fc.val(phi.Edges[predIdx])
 		}
+		// case-split hints: for a loop counter that goes from p to p+1, a skolemised index s with
+		// s <= p+1 is either p+1 or <= p (a valid bit-vector fact, given to the solver as a hint)
+		fc.splitHints = nil
+		for phi, nv := range ov {
+			if !isInt(phi.Type()) || intWidth(phi.Type()) != 64 {
+				continue
+			}
+			old, ok1 := fc.vals[phi].(Scalar)
+			nw, ok2 := nv.(Scalar)
+			if ok1 && ok2 {
+				fc.splitHints = append(fc.splitHints, [3]string{old.T, nw.T, phi.Comment})
+			}
+		}
 		for i, c := range br.loopClauses(li.ordinal, "invariant") {
 			env := br.envAt(to, phiCount(to), es, ov)
 			fc.prove(env, c.E, es, fmt.Sprintf("%sinv-keep:%d:%s", br.prefix, li.ordinal, clauseName(c, i)), "inv-keep", firstPos(to), c.Src)
 		}
+		fc.splitHints = nil
 		for i, c := range br.loopClauses(li.ordinal, "decreases") {
 			// measure strictly decreases and is bounded below (unsigned or >= 0)
 			envNew := br.envAt(to, phiCount(to), es, ov)
@@ -1132,6 +1146,33 @@ func (fc *FnCtx) prove(env *SpecEnv, e *Expr, st *State, name, kind string, pos 
 				t := env.resolveType(b.Type)
 				v := fc.fresh(t, "sk_"+b.Name)
 				n2 = n2.with(b.Name, TV{v, t})
+				if sv, ok := v.(Scalar); ok && isInt(t) && intWidth(t) == 64 && !isUnsigned(t) {
+					for _, h := range fc.splitHints {
+						one := app("bvadd", h[0], bvlit(1, 64))
+						// valid for all 64-bit values (also when p+1 wraps)
+						fc.assume(s2, implies(and(eq(h[1], one), app("bvsle", sv.T, h[1])), or(eq(sv.T, h[1]), app("bvsle", sv.T, h[0]))))
+						fc.assume(s2, implies(and(eq(h[1], one), app("bvslt", sv.T, h[1])), or(eq(sv.T, h[0]), app("bvslt", sv.T, h[0]))))
+					}
+				}
+			}
+			// fork on the position of the (single) skolemised index relative to the loop counter:
+			// the "new element" cases usually need no quantified hypothesis at all
+			if len(fc.splitHints) > 0 && len(e.Vars) == 1 {
+				if sv, ok := n2.vars[e.Vars[0].Name].V.(Scalar); ok && isInt(n2.vars[e.Vars[0].Name].T) && intWidth(n2.vars[e.Vars[0].Name].T) == 64 {
+					h := fc.splitHints[0]
+					for _, hh := range fc.splitHints {
+						if strings.Contains(src, hh[2]) {
+							h = hh
+						}
+					}
+					cases := []string{eq(sv.T, h[1]), and(not(eq(sv.T, h[1])), eq(sv.T, h[0])), and(not(eq(sv.T, h[1])), not(eq(sv.T, h[0])))}
+					for _, c := range cases {
+						s3 := s2.clone()
+						fc.assume(s3, c)
+						rec(n2.inState(s3), e.X[0], s3)
+					}
+					return
+				}
 			}
 			n2 = n2.inState(s2)
 			rec(n2, e.X[0], s2)
